@@ -8,6 +8,7 @@ import (
 	"fmt"
 	"slices"
 	"strings"
+	"time"
 
 	"verif/fw"
 	"verif/model"
@@ -57,6 +58,11 @@ var c03Sigma = [][]string{
 	// a recipient that is accepted but not stored (discard domain): the other recipients of the
 	// transaction receive the message all the same
 	{"RCPT TO:<r3@drop.test>"},
+	// the client falls silent for longer than the idle timeout (300 s of the bubble's clock), at a
+	// command boundary and in the middle of the message text: the server ends the session, what
+	// the client sends afterwards is not executed, and no partial message is stored
+	{"!idle"},
+	{"Subject: s", "", "bo", "!idle", "dy", "."},
 }
 
 type c03Case struct {
@@ -132,6 +138,20 @@ func c03ExecUnits(c *fw.Ctx, backend string, cas any, seq [][]string, checkFrom 
 			last := si == len(seq)-1
 			for _, line := range unit {
 				if ss.ended {
+					break outer
+				}
+				if line == "!idle" {
+					d.Log = append(d.Log, "C: (silent for 301 s)")
+					time.Sleep(301 * time.Second)
+					if p := k.Pending(); p != "" {
+						d.Log = append(d.Log, "S: "+strings.TrimSpace(p))
+					}
+					if !k.Ended() {
+						fail("idle|session-survives-timeout", "after 301 s of silence (idle timeout 300 s) the session is still open")
+						break outer
+					}
+					ss.ended = true
+					ss.data, ss.dataMode = nil, false
 					break outer
 				}
 				if ss.dataMode {
